@@ -224,7 +224,8 @@ _R12 = {
            'cannot bite at a position where the checked twin still compares the right pair.',
     'C16': ' NORMALIZE-AT-END: LZMADecoder::decode builds every Ok result behind a RangeDecoder::normalize call. END-FLAG-GATES: in '
            'LZMAReader, LZMA2Reader and XZReader every source pull reachable from `read` is behind the false edge of a test of the end flag.',
-    'C17': ' SINGLE-DECODER: a reader method that rebuilds its LZMADecoder drops the previous one before the constructor call.',
+    'C17': ' SINGLE-DECODER: a reader method that rebuilds its LZMADecoder drops the previous one before the constructor call. '
+           'EST-ARG-TWIN: constructor and estimator of a type hand the same argument to the constructor / estimator of a separately estimated sub-object.',
 }
 for _p, _t in _R12.items():
     CLAIMED[_p]['claim'] += _t
